@@ -122,6 +122,7 @@ def in_child(fn):
     pid = os.fork()
     if pid == 0:
         try:
+            _die_with_parent()
             os.close(r)
             try:
                 out = fn()
@@ -142,7 +143,17 @@ def in_child(fn):
     return json.loads(data) if data else {'error': 'child died'}
 
 
+def _die_with_parent():
+    try:
+        import ctypes
+        import signal
+        ctypes.CDLL('libc.so.6', use_errno=True).prctl(1, int(signal.SIGKILL))
+    except Exception:  # noqa
+        pass
+
+
 def main():
+    _die_with_parent()
     req = json.load(sys.stdin)
     gran = req.get('granularity', 'line')
     max_points = req.get('max_points', 400)
